@@ -120,6 +120,8 @@ func (st *state) exec(op string) (res string) {
 		return "ev=" + ev(st.p.Clear())
 	case "ast":
 		return astFacts()
+	case "seq":
+		return replaySeq(op)
 	case "trace", "cachelen":
 		// an observed history of the real code (session tier): the line IS the implementation's behaviour,
 		// the specification judges it
